@@ -8,7 +8,16 @@ use serde_json::{json, Value};
 use std::collections::BTreeMap;
 
 fn key(v: &Value) -> String {
-  format!("{}:{}:{}", v["file"].as_str().unwrap_or("").trim_start_matches("./"), v["range"]["byteOffset"]["start"], v["range"]["byteOffset"]["end"])
+  format!("{}:{}:{}{}", v["file"].as_str().unwrap_or("").trim_start_matches("./"), v["range"]["byteOffset"]["start"], v["range"]["byteOffset"]["end"],
+    match (v["ruleId"].as_str(), v["language"].as_str()) { (Some(r), Some(l)) if r.starts_with("lang-") => format!(":{r}:{l}"), _ => String::new() })
+}
+
+/// the "mixed" tree is a project: languageGlobs tell files of one extension apart (`*.view.ts` is Tsx, other `.ts`
+/// files are TypeScript), one rule per language; which language a file has must not depend on its neighbours
+fn setup_mixed(p: &Project) {
+  p.config(Some(&json!({"languageGlobs": {"tsx": ["*.view.ts"]}})));
+  p.rule("ts.yml", &json!({"id": "lang-ts", "language": "TypeScript", "severity": "error", "message": "m", "rule": {"pattern": "foo($A)"}}));
+  p.rule("tsx.yml", &json!({"id": "lang-tsx", "language": "Tsx", "severity": "error", "message": "m", "rule": {"pattern": "foo($A)"}}));
 }
 
 pub fn drive(seed: u64, outdir: &str, thorough: bool) {
@@ -22,24 +31,29 @@ pub fn drive(seed: u64, outdir: &str, thorough: bool) {
   // one more tree: a single small file with a finding next to larger files without any (the verdict of the whole
   // run hangs on one file, whichever thread finishes last)
   const N_LONELY: usize = 3;
-  let n_trees = n_trees + n_big + N_LONELY;
+  let n_trees = n_trees + n_big + N_LONELY + 1;
+  let mixed_tree = n_trees - 1;
   for tree in 0..n_trees {
-    let lonely = tree >= n_trees - N_LONELY;
-    let big = !lonely && tree >= n_trees - N_LONELY - n_big;
+    let mixed = tree == mixed_tree;
+    let lonely = !mixed && tree >= n_trees - 1 - N_LONELY;
+    let big = !mixed && !lonely && tree >= n_trees - 1 - N_LONELY - n_big;
     // a tree: 6-14 files in nested directories; k matches per file; some faulty
-    let n_files = if lonely { 8 } else if big { 320 + rng.below(120) } else { 6 + rng.below(9) };
+    let n_files = if mixed { 24 } else if lonely { 8 } else if big { 320 + rng.below(120) } else { 6 + rng.below(9) };
     let mut files: Vec<(String, Vec<u8>, &'static str)> = vec![];
     for i in 0..n_files {
       let dir = if big { format!("d{}/", i % 17) } else { ["", "a/", "a/b/", "c/"][rng.below(4)].to_string() };
       // in a lonely tree the file with the finding is first, in the middle or last by name
-      let path = if lonely && i == 0 { format!("src/{}.js", ["a0", "m", "zz"][n_trees - 1 - tree]) }
+      let path = if mixed { format!("{}m{i}.{}", ["", "a/", "a/b/"][i % 3], if (i * 7 / 3) % 2 == 0 { "ts" } else { "view.ts" }) }
+        else if lonely && i == 0 { format!("src/{}.js", ["a0", "m", "zz"][n_trees - 2 - tree]) }
         else if lonely { format!("src/f{i}.js") } else { format!("{dir}f{i}.js") };
       // the first small tree always carries one file beyond the size limit with few lines (eligible: the limit is
       // size AND line count) and, in the thorough tier, one beyond both limits (skipped)
       let fault = if !big && tree == 0 && i == 0 { "large-few-lines" }
         else { match rng.below(if big { 40 } else { 9 }) { 0 => "empty", 1 => "non-utf8", 2 if thorough && !big => "oversized", _ => "ok" } };
-      let fault = if lonely { "ok" } else { fault };
-      let content: Vec<u8> = if lonely {
+      let fault = if lonely || mixed { "ok" } else { fault };
+      let content: Vec<u8> = if mixed {
+        format!("// file {i}\nfoo({i});\nconst v = <T,>(x: T) => x;\n").into_bytes()
+      } else if lonely {
         // the file with the finding is a quarter of the size of the clean ones, which differ in size among
         // themselves: files start and finish at different times around it, and matching takes a while in each
         let mut t = String::new();
@@ -74,8 +88,9 @@ pub fn drive(seed: u64, outdir: &str, thorough: bool) {
       } };
       files.push((path, content, fault));
     }
-    let threads: Vec<usize> = if lonely { vec![2, 4, 8] } else if big { (if thorough { vec![2, 8, 16] } else { vec![8] }) } else if thorough { vec![1, 2, 3, 4, 8, 16] } else { vec![1, 2, 4, 16] };
+    let threads: Vec<usize> = if mixed { vec![1, 2, 4] } else if lonely { vec![2, 4, 8] } else if big { (if thorough { vec![2, 8, 16] } else { vec![8] }) } else if thorough { vec![1, 2, 3, 4, 8, 16] } else { vec![1, 2, 4, 16] };
     let reps = if big { 1 } else if lonely { 3 } else if thorough { 4 } else { 2 };
+    let reps = if mixed { 2 } else { reps };
     for &j in &threads {
       for rep in 0..reps {
         // big trees are printed into a pipe nobody reads for a while
@@ -91,8 +106,12 @@ pub fn drive(seed: u64, outdir: &str, thorough: bool) {
     for (path, content, _) in files {
       p.write(path, content);
     }
+    if tree == mixed_tree {
+      setup_mixed(&p);
+    }
     let refs = cli::par_map(files, 12, |_, (path, _, _)| {
-      let o = run_sgv(&["run", "-p", "foo($A)", "-l", "js", "--json=stream", path], &p.root, None, 60, &[]);
+      let o = if tree == mixed_tree { run_sgv(&["scan", "--json=stream", path], &p.root, None, 60, &[]) }
+        else { run_sgv(&["run", "-p", "foo($A)", "-l", "js", "--json=stream", path], &p.root, None, 60, &[]) };
       json_lines(&o.stdout).iter().map(key).collect::<Vec<_>>()
     });
     let mut all: Vec<String> = refs.into_iter().flatten().collect();
@@ -111,12 +130,16 @@ pub fn drive(seed: u64, outdir: &str, thorough: bool) {
     let jn = j.to_string();
     let sched_s = sched.to_string();
     // both workers share run_worker: `sg run` (pattern) and `sg scan` (rule file); every other job scans
-    let lonely = *tree >= n_trees - N_LONELY;
-    let use_scan = idx % 2 == 1 || lonely;
-    if use_scan {
+    let mixed = *tree == mixed_tree;
+    let lonely = !mixed && *tree >= n_trees - 1 - N_LONELY;
+    let use_scan = idx % 2 == 1 || lonely || mixed;
+    if mixed {
+      setup_mixed(&p);
+    } else if use_scan {
       p.write(".verif-rule.yml", br#"{"id": "r", "language": "JavaScript", "severity": "error", "message": "m", "rule": {"pattern": "foo($A)"}}"#);
     }
-    let args: Vec<&str> = if use_scan { vec!["scan", "-r", ".verif-rule.yml", "--json=stream", "--inspect", "summary", "-j", &jn, "."] }
+    let args: Vec<&str> = if mixed { vec!["scan", "--json=stream", "--inspect", "summary", "-j", &jn, "."] }
+      else if use_scan { vec!["scan", "-r", ".verif-rule.yml", "--json=stream", "--inspect", "summary", "-j", &jn, "."] }
       else { vec!["run", "-p", "foo($A)", "-l", "js", "--json=stream", "--inspect", "summary", "-j", &jn, "."] };
     // lonely trees alternate between perturbed and unperturbed schedules
     let env_all = [("AST_GREP_VERIF_TRACE", trace.as_str()), ("AST_GREP_VERIF_SCHED", sched_s.as_str())];
